@@ -198,7 +198,38 @@ class Snapshotter(PointCounter):
                     fhandle.write(durable)
 
 
-def run_in_process(work, case, model, aux_model, rop, consumer, trace_reads=False):
+WARM_UPS = ('none', 'repack', 'clean+vacuum', 'has-absent', 'list', 'read', 'none', 'none')
+
+
+def warm_up(world, rop):
+    """Model-preserving calls made through the SAME handle before the observed operation (not counted, not faulted): a process
+    that dies or meets a fault during an operation has usually done other things with its handle before (session state,
+    caches, a VACUUM behind SQLAlchemy's back, ...)."""
+    from .common import absent_key  # pylint: disable=import-outside-toplevel
+    from .interp import raised_in_library  # pylint: disable=import-outside-toplevel
+
+    for choice in rop.get('prelude') or ():
+        name = WARM_UPS[choice % len(WARM_UPS)]
+        cont = world.c
+        try:
+            if name == 'repack':
+                cont.repack()
+            elif name == 'clean+vacuum':
+                cont.clean_storage(vacuum=True)
+            elif name == 'has-absent':
+                cont.has_object(absent_key(world.hash_type, 4))
+            elif name == 'list':
+                list(cont.list_all_objects())
+            elif name == 'read' and world.model:
+                key = sorted(world.model)[choice // len(WARM_UPS) % len(world.model)]
+                cont.get_object_content(key)
+        except Exception as exc:  # pylint: disable=broad-except
+            if raised_in_library(exc):
+                raise Violation(rop.get('prop_id', world.prop), f'warm-up-raised:{name}:{type(exc).__name__}', f'{name} on a reachable state raised {exc!r}') from exc
+            raise
+
+
+def run_in_process(work, case, model, aux_model, rop, consumer, trace_reads=False, warm=True):
     """Attach to the containers under `work`, run `rop` under the shim with `consumer`, close. Returns the outcome dict."""
     from .interp import World  # pylint: disable=import-outside-toplevel
 
@@ -207,6 +238,8 @@ def run_in_process(work, case, model, aux_model, rop, consumer, trace_reads=Fals
     world = World(work, case, attach=(model, aux_model))
     outcome = {'status': 'returned'}
     try:
+        if warm:
+            warm_up(world, rop)
         if hasattr(consumer, 'start'):
             consumer.start()
         shim.install()
@@ -292,6 +325,7 @@ def run_in_child(work, case, model, aux_model, rop, make_consumer, trace_reads=F
             consumer = make_consumer(os.path.realpath(root) + os.sep, report_path)
             shim = Shim(root, consumer, trace_reads=trace_reads)
             world = World(work, case, attach=(model, aux_model))
+            warm_up(world, rop)
             if hasattr(consumer, 'start'):
                 consumer.start()
             shim.install()
